@@ -21,17 +21,20 @@ SetRowOf(m, i, r)    == [m EXCEPT ![i] = r]
 Reversed(m)          == [i \in 1..Len(m) |-> m[Len(m) + 1 - i]]
 Bump(m, K)           == [i \in 1..Len(m) |-> [j \in 1..Len(m[i]) |-> (m[i][j] + 1) % K]]
 
-\* Iteration from both ends (DoubleEndedIterator): `pat` is a sequence of "f" (next) / "b" (next_back) requests on ONE
+\* Iteration from both ends (DoubleEndedIterator): `pat` is a sequence of front ("f") / back ("b") requests on ONE
 \* iterator; each request yields the next row from that end while rows remain between the two cursors and nothing
 \* (<<>>) afterwards; every row is yielded at most once.  Returns the yields and the iterator's remaining length.
+\* a request is <<end, k>>: k = 0 is next / next_back, k > 0 is nth(k) / nth_back(k) (skip k rows from that end first;
+\* when fewer than k + 1 rows remain the iterator is exhausted and nothing is yielded)
 RECURSIVE EndsWalk(_, _, _, _, _)
-EndsWalk(m, pat, k, f, b) ==
-  IF k > Len(pat) THEN [y |-> <<>>, n |-> b - f]
-  ELSE IF f < b
-       THEN IF pat[k] = "f"
-            THEN LET r == EndsWalk(m, pat, k + 1, f + 1, b) IN [y |-> <<m[f + 1]>> \o r.y, n |-> r.n]
-            ELSE LET r == EndsWalk(m, pat, k + 1, f, b - 1) IN [y |-> <<m[b]>> \o r.y, n |-> r.n]
-       ELSE LET r == EndsWalk(m, pat, k + 1, f, b) IN [y |-> <<<<>>>> \o r.y, n |-> r.n]
+EndsWalk(m, pat, q, f, b) ==
+  IF q > Len(pat) THEN [y |-> <<>>, n |-> b - f]
+  ELSE LET k == pat[q][2] IN
+       IF b - f > k
+       THEN IF pat[q][1] = "f"
+            THEN LET r == EndsWalk(m, pat, q + 1, f + k + 1, b) IN [y |-> <<m[f + k + 1]>> \o r.y, n |-> r.n]
+            ELSE LET r == EndsWalk(m, pat, q + 1, f, b - k - 1) IN [y |-> <<m[b - k]>> \o r.y, n |-> r.n]
+       ELSE LET r == EndsWalk(m, pat, q + 1, b, b) IN [y |-> <<<<>>>> \o r.y, n |-> r.n]
 IterEnds(m, pat) == EndsWalk(m, pat, 1, 0, Len(m))
 
 \* Layout facts of C19: the stride (in elements of sz bytes) is at least the
